@@ -45,14 +45,33 @@ EXPLANATION = (
     "way), every value the writers emit (constants folded from the writers' pack calls / interfaces) does; (10) storage "
     "containers: schema_from_version/schema_from_header return a schema only on the edge where it matches the header "
     "and None otherwise, ShareFile/MutableShareFile.__init__ cannot complete without the not-None fact, is_valid_header "
-    "is false when the lookup fails.  Undecided: the positional arithmetic of base62 and of Python's base64 module, "
+    "is false when the lookup fails; (11) transfer: both _write_lease_record methods write serialize(lease) after the "
+    "seek, the immutable count writers write the count, add_lease stores record number count and then count + 1, get_leases "
+    "seeks to _lease_offset before reading and yields unserialize(bytes read) (not only for empty reads), a created immutable "
+    "/ mutable container gets schema.header(..) written, the mutable extra-lease count is incremented exactly on the paths "
+    "where the slot is not known to exist (neither n < 4 nor n - 4 < count), _read_lease_record returns unserialize(read) "
+    "under owner_num != 0 and None only under owner_num == 0 and raises IndexError only beyond the count, "
+    "_get_num_lease_slots / _enumerate_leases cover 4 + count slots and yield records that are not None, the header field "
+    "accessors return what they unpacked, the serializers pass the record through _to_data / _from_data and hash each "
+    "secret into its own field; (12) immutable share offset table: per version the writers emit, the statements only that "
+    "version reaches in _parse_offsets / _satisfy_offsets / _desire_offsets bind the table start and field width / format "
+    "of that writer's pack format, the table is addressed as (start, 6 * width), read field by field with the position "
+    "advanced by the width (or as '>' + 6 * format) and stored under the field names in packing order; the writers' "
+    "fieldsize / fieldstruct / first data offset derive from their format; split_netstring also checks the announced "
+    "payload length, returns only with >= numstrings elements and, with a required trailer, only under data[position:] == "
+    "trailer; unpack_extension converts the int keys under `key in d` and returns the dictionary it filled.  Undecided: "
+    "the positional arithmetic of base62 and of Python's base64 module, the section arithmetic of the immutable share "
+    "writers (x += size between offsets) and their FileTooLargeError bounds, the offset sanity checks of "
+    "Share._satisfy_offsets (share/block hash sizes), the field layout of SDMF/MDMF shares beyond the version dispatch "
+    "(unpack_share, MDMFSlotReadProxy._process_encoding_parameters bodies), the write-enabler comparison (another property), "
     "rejection of every other malformed input, struct's own behaviour; readers that branch on a version stored in an "
     "attribute by another method (MDMFSlotReadProxy._process_offsets and later methods rely on "
     "_process_encoding_parameters having raised) are not walked; a dispatch through a computed (non-literal) table is "
     "reported rather than understood.")
 TECHNIQUE = ("static analysis: constant folding of struct formats/offsets and table agreement between pack and "
              "unpack sites; straight-line symbolic normal forms of the netstring and UEB parsers; concrete-value CFG "
-             "walks of the version dispatch with edge facts")
+             "walks of the version dispatch with edge facts; must-precede / must-follow path queries and small product "
+             "monitors over the lease record readers and writers")
 
 LEASE = "storage.lease:LeaseInfo"
 SF = "storage.immutable:ShareFile"
@@ -1308,9 +1327,13 @@ def run(ctx: Context):
         # ints are written in decimal
         dec_ok = False
         for n in ast.walk(lp):
-            if isinstance(n, ast.If) and isinstance(n.test, ast.Call) and call_tail(n.test) == "isinstance" and \
-                    len(n.test.args) == 2 and attr_path(n.test.args[1]) == "int":
-                vn = attr_path(n.test.args[0])
+            tst = n.test if isinstance(n, ast.If) else None
+            while isinstance(tst, ast.UnaryOp) and isinstance(tst.op, ast.Not) and isinstance(tst.operand, ast.UnaryOp) \
+                    and isinstance(tst.operand.op, ast.Not):
+                tst = tst.operand.operand
+            if isinstance(n, ast.If) and isinstance(tst, ast.Call) and call_tail(tst) == "isinstance" and \
+                    len(tst.args) == 2 and attr_path(tst.args[1]) == "int":
+                vn = attr_path(tst.args[0])
                 for st in n.body:
                     if isinstance(st, ast.Assign) and attr_path(st.targets[0]) == vn:
                         if flatten_bytes(st.value, {}, F, pk) == [("dec", vn)] or norm_plain(st.value) in (
